@@ -16,8 +16,14 @@ structure HashCfg where
 /-- `finish()` of the scripted hasher after the given sequence of written words. -/
 def HashCfg.hash (c : HashCfg) (words : List Nat) : Nat :=
   let acc := words.foldl (fun (a : UInt64) w => ((a ^^^ UInt64.ofNat w) * c.mul) + c.add) c.seed
-  let r := if c.sh < 64 then acc ^^^ (acc >>> UInt64.ofNat c.sh) else acc
+  let sh := c.sh % 256
+  let r := if sh < 64 then acc ^^^ (acc >>> UInt64.ofNat sh) else acc
   r.toNat
+
+/-- `BuildHasher::hash_one` of the scripted hasher: the harness overrides the provided method and
+xors in a word taken from the bits of `sh` above the low eight (0 = not overridden). -/
+def HashCfg.hashOne (c : HashCfg) (words : List Nat) : Nat :=
+  (UInt64.ofNat (c.hash words) ^^^ (UInt64.ofNat (c.sh / 256) * 0x9E3779B97F4A7C15)).toNat
 
 /-- splitmix64 with a queue of forced words in front. -/
 structure Rng where
